@@ -124,6 +124,17 @@ def parse_out_ts(s):
     return [loc, off]
 
 
+_ZONES = {}
+
+
+def _zone(name):
+    from zoneinfo import ZoneInfo
+
+    if name not in _ZONES:
+        _ZONES[name] = ZoneInfo(name)
+    return _ZONES[name]
+
+
 def true_instant(case):
     """the instant the input denotes, exact (Fraction of µs since the epoch)"""
     extra = case.get("extra", "")
@@ -333,7 +344,20 @@ class C13(Prop):
         zone = rng.choice(["Africa/Abidjan", "Europe/London", "Atlantic/Reykjavik"]) if form == "dt" and rng.random() < 0.15 else None
         if zone:
             off = 0
-        case = {"k": "ev", "form": form, "loc": T + (off or 0), "off": off, "dur": self._dur(rng), "zone": zone,
+        fold = 0
+        if form == "dt" and not zone and not exotic and rng.random() < 0.12:
+            # an aware datetime in a real zone with daylight saving: summer and winter instants of the same tzinfo object, and
+            # the repeated hour at the end of daylight saving (fold = 1 is the second pass)
+            from zoneinfo import ZoneInfo
+
+            zone = rng.choice(["Europe/Berlin", "America/New_York", "Australia/Lord_Howe", "Europe/Berlin"])
+            ends = {"Europe/Berlin": 1635642000, "America/New_York": 1636264800, "Australia/Lord_Howe": 1617462000}
+            if rng.random() < 0.5:
+                T = (ends[zone] + rng.randint(-3600, 3599)) * M + rng.randint(0, M - 1)
+            d = datetime.fromtimestamp(T // M, ZoneInfo(zone))
+            off = (d.utcoffset() // timedelta(microseconds=1))
+            fold = d.fold
+        case = {"k": "ev", "form": form, "loc": T + (off or 0), "off": off, "dur": self._dur(rng), "zone": zone, "fold": fold,
                 "id": rng.choice([None, None, 0, 1, rng.randint(0, 2**40)]), "data": rng.choice(self.DATAS)}
         if form in ("iso", "z", "naive-iso"):
             us = case["loc"] % M
@@ -506,6 +530,12 @@ class C13(Prop):
                 d = mk_aware(case["loc"], 0).replace(tzinfo=ZoneInfo(case["zone"]))
                 if d.utcoffset() == timedelta(0):
                     return d
+            elif case.get("zone"):
+                from zoneinfo import ZoneInfo
+
+                d = mk_aware(case["loc"], case["off"]).replace(tzinfo=_zone(case["zone"]), fold=case.get("fold", 0))
+                if d.utcoffset() == timedelta(microseconds=case["off"]):
+                    return d  # the same tzinfo object for every case of the process, as an application would have
             return mk_aware(case["loc"], case["off"])
         if form == "naive-dt":
             return wall_fields(case["loc"])
